@@ -191,9 +191,13 @@ mutual
 /-- What the analyser reports as assigned is among the names the statement may bind. -/
 theorem assigned_sub_targets : ∀ (st : Stmt) {d : VSet}, assignedStmt st = some d → ∀ x, x ∈ d → x ∈ targetsStmt st
   | .assign y e, d, h, x, hx => by
-    simp only [assignedStmt] at h; cases h; simpa [targetsStmt] using hx
+    simp only [assignedStmt] at h; cases h
+    simp only [targetsStmt, List.mem_cons]
+    exact Or.inl (by simpa using hx)
   | .par ys es, d, h, x, hx => by
-    simp only [assignedStmt] at h; cases h; simpa [targetsStmt] using mem_vofList.mp hx
+    simp only [assignedStmt] at h; cases h
+    simp only [targetsStmt, List.mem_append]
+    exact Or.inl (mem_vofList.mp hx)
   | .tuple ys e, d, h, x, hx => by
     simp only [assignedStmt] at h; cases h; simpa [targetsStmt] using mem_vofList.mp hx
   | .badAssign ys e, d, h, x, hx => by
@@ -225,7 +229,8 @@ theorem assigned_sub_targets : ∀ (st : Stmt) {d : VSet}, assignedStmt st = som
       · simp only [List.mem_singleton] at h'; exact Or.inl h'
   | .while_ c body, d, h, x, hx => by
     simp only [assignedStmt] at h
-    simpa [targetsStmt] using assignedBlock_sub_targets body h x hx
+    simp only [targetsStmt, List.mem_append]
+    exact Or.inr (assignedBlock_sub_targets body h x hx)
   | .brk c, d, h, x, hx => by simp only [assignedStmt] at h; cases h; cases hx
   | .ret es b, d, h, x, hx => by simp only [assignedStmt] at h; cases h; cases hx
   | .skip, d, h, x, hx => by simp only [assignedStmt] at h; cases h; cases hx
@@ -249,8 +254,8 @@ theorem assignedBlock_sub_targets : ∀ (ss : List Stmt) {d : VSet}, assignedBlo
         · exact Or.inr (assignedBlock_sub_targets ss hb x h')
 end
 
-theorem FreeOf.head {L : Locals} {st : Stmt} {ss : List Stmt} (h : FreeOf L (targetsBlock (st :: ss))) :
-    FreeOf L (targetsStmt st) ∧ FreeOf L (targetsBlock ss) :=
+theorem FreeOf.head {V : Type} {S : Sem V} {L : Locals} {st : Stmt} {ss : List Stmt} (h : FreeOf S L (targetsBlock (st :: ss))) :
+    FreeOf S L (targetsStmt st) ∧ FreeOf S L (targetsBlock ss) :=
   ⟨h.sub (fun x hx => by simp [targetsBlock, hx]), h.sub (fun x hx => by simp [targetsBlock, hx])⟩
 
 end OV.C01
